@@ -16,15 +16,17 @@ func init() {
 	register(&Property{
 		ID:        "C38",
 		Title:     "CNI delete is idempotent and leaves no address behind",
-		Technique: "static analysis: error-tolerance guards, dominance of release calls over success exits, sibling derivation signatures, cut-set reachability from the AutoAssign call (go/ssa over cni-plugin/pkg/ipamplugin)",
+		Technique: "static analysis: error-tolerance guards, dominance of release calls over success exits, sibling derivation signatures, cut-set reachability from the AutoAssign call, whole-handle guard on handle deletion (go/ssa over cni-plugin/pkg/ipamplugin and libcalico-go/lib/ipam)",
 		DesignRef: "DESIGN.md §3 C38",
 		Explanation: "Decides structural necessary conditions on the CNI IPAM plugin: " +
 			"(idem) in cmdDel the error of every IPAM call keyed only by the handle ID (ReleaseByHandle, IPsByHandle) is returned only after the ErrorResourceDoesNotExist tolerance; " +
 			"(both) every success exit of cmdDel outside the KubeVirt-persistence branch is dominated by ReleaseByHandle(primary handle) and ReleaseByHandle(workload ID); " +
 			"(handle) cmdAdd and cmdDel compute the primary and the VM handle ID from the same inputs, and that handle is what cmdAdd passes to AutoAssign/AssignIP; " +
 			"(add) after AutoAssign every success exit of cmdAdd has, for each requested family, appended that family's address to the result, and only under PartialFulfillmentError()==nil for that family; " +
-			"(rollback) a partial-fulfilment error for one family is returned only after ReleaseIPs of the other family's addresses, unless that family holds none.",
-		NotDecided: "IPAM library behaviour (C19–C21); the KubeVirt persistence policy (when a VM handle may be released); hard AutoAssign errors return without rollback and rely on the runtime's DEL; lock and timeout handling; that PartialFulfillmentError()==nil means len(IPs) >= NumRequested.",
+			"(rollback) a partial-fulfilment error for one family is returned only after ReleaseIPs of the other family's addresses, unless that family holds none; " +
+			"(whole) in libcalico-go/lib/ipam every call of blockReaderWriter.deleteHandle(kvp) is guarded by len(handle.Block)==0 — directly, through a one-argument bool helper returning it (empty()), or a one-argument count of the handle compared with 0 — " +
+			"on the handle asserted from that same kvp.Value; a count belonging to one block (decrementBlock's result, a map lookup, a per-version count) is not accepted, because cmdDel's \"handle not found = released\" is only sound if the handle object outlives its last block.",
+		NotDecided: "IPAM library behaviour (C19–C21) other than the handle-deletion guard; the KubeVirt persistence policy (when a VM handle may be released); hard AutoAssign errors return without rollback and rely on the runtime's DEL; lock and timeout handling; that PartialFulfillmentError()==nil means len(IPs) >= NumRequested.",
 		Assumptions: []string{
 			"go/types + go/ssa (x/tools v0.50.0) model of the current source, CGO_ENABLED=0 build, GOOS=linux",
 			"ipam.Interface.AutoAssign returns (IPv4 assignments, IPv6 assignments, error)",
@@ -52,6 +54,13 @@ func init() {
 				Old: "\t\t\tif err := v4Assignments.PartialFulfillmentError(); err != nil {\n\t\t\t\treturn fmt.Errorf(\"failed to request IPv4 addresses: %w\", err)\n\t\t\t}\n", New: "", Expect: "C38.add/fulfilled/v4"},
 			{Name: "IPv4 failure does not release the IPv6 address", File: "cni-plugin/pkg/ipamplugin/ipam_plugin.go",
 				Old: "_, _, err := calicoClient.IPAM().ReleaseIPs(cleanupCtx, v6IPs...)", New: "_, _, err := calicoClient.IPAM().ReleaseIPs(cleanupCtx)", Expect: "C38.rollback/v4-short"},
+			{Name: "handle deleted when the count of the block just released reaches zero", File: "libcalico-go/lib/ipam/ipam.go",
+				Old: "\t\t_, err = handle.decrementBlock(blockCIDR, num)\n\t\tif err != nil {\n\t\t\treturn err\n\t\t}\n\n\t\t// Update / Delete as appropriate.  Since we have been manipulating the\n\t\t// data in the KVPair, just pass this straight back to the client.\n\t\tif handle.empty() {",
+				New: "\t\tremaining, err := handle.decrementBlock(blockCIDR, num)\n\t\tif err != nil {\n\t\t\treturn err\n\t\t}\n\n\t\tif *remaining == 0 {", Expect: "C38.whole/ipamClient.decrementHandle/deleteHandle"},
+			{Name: "handle deleted when this block has no entry left", File: "libcalico-go/lib/ipam/ipam.go",
+				Old: "\t\tif handle.empty() {", New: "\t\tif handle.Block[blockCIDR.String()] == 0 {", Expect: "C38.whole/ipamClient.decrementHandle/deleteHandle"},
+			{Name: "emptiness helper looks at one IP version only", File: "libcalico-go/lib/ipam/ipam.go",
+				Old: "\t\tif handle.empty() {", New: "\t\tif handle.totalCountByVersion(blockCIDR.Version()) == 0 {", Expect: "C38.whole/ipamClient.decrementHandle/deleteHandle"},
 			{Name: "IPv6 failure releases the wrong family", File: "cni-plugin/pkg/ipamplugin/ipam_plugin.go",
 				Old: "\t\t\t\tfor _, v4 := range v4Assignments.IPs {\n\t\t\t\t\tv4IPs = append(v4IPs, ipam.ReleaseOptions{Address: v4.IP.String()})", New: "\t\t\t\tfor _, v4 := range v6Assignments.IPs {\n\t\t\t\t\tv4IPs = append(v4IPs, ipam.ReleaseOptions{Address: v4.IP.String()})", Expect: "C38.rollback/v6-short"},
 		},
@@ -339,10 +348,294 @@ func runC38(c *Ctx) {
 	c.Rule("C38.add", "E-GUARD/E-PAIR", "cmdAdd after AutoAssign: success exits have appended each requested family's address, and only under PartialFulfillmentError()==nil", 4)
 	c.Rule("C38.rollback", "E-GUARD", "cmdAdd: a partial-fulfilment error of one family is returned only after ReleaseIPs of the other family's addresses (or when it holds none)", 2)
 
+	c.Rule("C38.whole", "E-GUARD", "libcalico-go/lib/ipam: an IPAMHandle is deleted only under a test that is a function of the whole handle being deleted (len(handle.Block)==0, directly or through a one-argument helper such as empty()), never under a per-block count", 1)
+
 	c38Idem(c, p, del)
 	c38Both(c, p, del)
 	c38Handle(c, p, add, del)
 	c38Add(c, p, add)
+	c38Whole(c)
+}
+
+// ---------------------------------------------------------------------- whole --
+
+// c38HandleKVPs walks backwards from a handle value (allocationHandle struct,
+// *model.IPAMHandle, or a field of one) to the *model.KVPair(s) whose .Value it
+// was asserted from: through loads, embedded-struct literals, type asserts, phis.
+func c38HandleKVPs(v ssa.Value) (kvps []ssa.Value, other bool) {
+	seen := map[ssa.Value]bool{}
+	var walk func(v ssa.Value)
+	fieldStores := func(al *ssa.Alloc, idx int) {
+		n := 0
+		if al.Referrers() != nil {
+			for _, r := range *al.Referrers() {
+				switch x := r.(type) {
+				case *ssa.Store:
+					if x.Addr == al {
+						n++
+						walk(x.Val)
+					}
+				case *ssa.FieldAddr:
+					if x.X != al || (idx >= 0 && x.Field != idx) || x.Referrers() == nil {
+						continue
+					}
+					for _, rr := range *x.Referrers() {
+						if st, ok := rr.(*ssa.Store); ok && st.Addr == x {
+							n++
+							walk(st.Val)
+						}
+					}
+				}
+			}
+		}
+		if n == 0 {
+			other = true
+		}
+	}
+	walk = func(v ssa.Value) {
+		if v == nil || seen[v] {
+			return
+		}
+		seen[v] = true
+		switch x := v.(type) {
+		case *ssa.Phi:
+			for _, e := range x.Edges {
+				walk(e)
+			}
+		case *ssa.TypeAssert:
+			walk(x.X)
+		case *ssa.ChangeType:
+			walk(x.X)
+		case *ssa.MakeInterface:
+			walk(x.X)
+		case *ssa.Extract:
+			walk(x.Tuple)
+		case *ssa.Field:
+			walk(x.X)
+		case *ssa.Alloc:
+			fieldStores(x, -1)
+		case *ssa.FieldAddr:
+			if al, ok := x.X.(*ssa.Alloc); ok {
+				fieldStores(al, x.Field)
+				return
+			}
+			walk(x.X)
+		case *ssa.UnOp:
+			if x.Op != token.MUL {
+				other = true
+				return
+			}
+			if fa, ok := x.X.(*ssa.FieldAddr); ok && fieldName(fa.X.Type(), fa.Field) == "Value" && namedTypeName(fa.X.Type()) == "KVPair" {
+				kvps = append(kvps, fa.X)
+				return
+			}
+			walk(x.X)
+		default:
+			other = true
+		}
+	}
+	walk(v)
+	return
+}
+
+// c38Whole: cmdDel treats "handle not found" as "nothing left to release"
+// (C38.idem).  That is only sound if the IPAM library deletes a handle object
+// exactly when no block of it holds an address any more.  So every call of
+// blockReaderWriter.deleteHandle(kvp) must be guarded by a test that is a
+// function of the whole handle in that same kvp — len(handle.Block)==0,
+// directly or via a helper whose only input is the handle — and not by a
+// count that belongs to one block.
+func c38Whole(c *Ctx) {
+	p := c.Load(c21IpamPkg)
+	delFn := p.Func(c21IpamPkg, "blockReaderWriter.deleteHandle")
+	blockF, _ := p.LookupExt("libcalico-go/lib/backend/model", "IPAMHandle.Block").(*types.Var)
+	if delFn == nil || blockF == nil {
+		c.Lost("ipam.blockReaderWriter.deleteHandle / model.IPAMHandle.Block")
+	}
+	isZero := func(v ssa.Value) bool {
+		cv, ok := constOf(v)
+		return ok && cv.ExactString() == "0"
+	}
+	// lenBlock: v = len(X.Block); returns X.Block's base (the handle)
+	lenBlock := func(v ssa.Value) (ssa.Value, bool) {
+		call, ok := v.(*ssa.Call)
+		if !ok {
+			return nil, false
+		}
+		b, ok := call.Common().Value.(*ssa.Builtin)
+		if !ok || b.Name() != "len" {
+			return nil, false
+		}
+		a := call.Common().Args[0]
+		if fieldVar(a) != blockF {
+			return nil, false
+		}
+		switch x := a.(type) {
+		case *ssa.UnOp:
+			if fa, ok := x.X.(*ssa.FieldAddr); ok {
+				return fa.X, true
+			}
+		case *ssa.Field:
+			return x.X, true
+		}
+		return nil, false
+	}
+	// emptyCmp: cond (taken with polarity pol) establishes len(h.Block) == 0; returns h
+	var emptyCmp func(cond ssa.Value, pol bool, depth int) (ssa.Value, bool)
+	emptyCmp = func(cond ssa.Value, pol bool, depth int) (ssa.Value, bool) {
+		switch x := cond.(type) {
+		case *ssa.BinOp:
+			l, r, op := x.X, x.Y, x.Op
+			if isZero(l) { // 0 op v  ->  v op' 0
+				l, r = r, l
+				switch op {
+				case token.LSS:
+					op = token.GTR
+				case token.GEQ:
+					op = token.LEQ
+				}
+			}
+			if !isZero(r) {
+				return nil, false
+			}
+			var establishes bool
+			switch op {
+			case token.EQL, token.LEQ:
+				establishes = pol
+			case token.NEQ, token.GTR:
+				establishes = !pol
+			default:
+				return nil, false
+			}
+			if !establishes {
+				return nil, false
+			}
+			if h, ok := lenBlock(l); ok {
+				return h, true
+			}
+			// an int-valued helper of the handle alone that reads Block (e.g. a total count), compared with 0
+			if call, ok := l.(*ssa.Call); ok && depth > 0 {
+				cc := call.Common()
+				if sf := calleeFn(cc); sf != nil && sf.Blocks != nil && len(cc.Args) == 1 && len(sf.Params) == 1 {
+					if c38ReadsField(sf, blockF) {
+						return cc.Args[0], true
+					}
+				}
+			}
+		case *ssa.Call:
+			// bool helper of the handle alone whose every return is such a comparison over its parameter
+			cc := x.Common()
+			sf := calleeFn(cc)
+			if depth == 0 || sf == nil || sf.Blocks == nil || len(cc.Args) != 1 || len(sf.Params) != 1 {
+				return nil, false
+			}
+			rs := returnsOf(sf)
+			if len(rs) == 0 {
+				return nil, false
+			}
+			for _, r := range rs {
+				if len(r.Results) != 1 {
+					return nil, false
+				}
+				h, ok := emptyCmp(r.Results[0], pol, depth-1)
+				if !ok {
+					return nil, false
+				}
+				rooted := false
+				for v, i := h, 0; v != nil && i < 8; i++ {
+					if v == ssa.Value(sf.Params[0]) {
+						rooted = true
+						break
+					}
+					switch y := v.(type) {
+					case *ssa.UnOp:
+						v = y.X
+					case *ssa.FieldAddr:
+						v = y.X
+					case *ssa.Field:
+						v = y.X
+					case *ssa.Alloc:
+						v = nil
+						if y.Referrers() != nil {
+							for _, rr := range *y.Referrers() {
+								if st, ok := rr.(*ssa.Store); ok && st.Addr == y {
+									v = st.Val
+								}
+							}
+						}
+					default:
+						v = nil
+					}
+				}
+				if !rooted {
+					return nil, false
+				}
+			}
+			return cc.Args[0], true
+		}
+		return nil, false
+	}
+	n := 0
+	for _, f := range p.AllFuncs() {
+		if f.Pkg == nil || f.Pkg.Pkg.Path() != calicoPrefix+c21IpamPkg {
+			continue
+		}
+		for _, cs := range callsIn(f, false, func(g *types.Func) bool { return g == delFn.Object() }) {
+			n++
+			args := cs.Common().Args
+			kvp := args[len(args)-1]
+			kvpName := path(kvp)
+			if len(kvpName) > 40 {
+				kvpName = "the handle's KVPair"
+			}
+			var seenTests []string
+			ok := guardedCut(cs.Instr, func(cond ssa.Value, pol bool) bool {
+				h, isEmpty := emptyCmp(cond, pol, 2)
+				if !isEmpty {
+					return false
+				}
+				ks, _ := c38HandleKVPs(h)
+				for _, k := range ks {
+					if k == kvp || path(k) == path(kvp) {
+						return true
+					}
+				}
+				seenTests = append(seenTests, "emptiness test on "+path(h)+", which is not the handle in the deleted pair")
+				return false
+			})
+			detail := ""
+			if len(seenTests) > 0 {
+				detail = " (" + strings.Join(seenTests, "; ") + ")"
+			}
+			c.Check(ok, "C38.whole/"+fnName(f)+"/deleteHandle", p.Pos(cs.Instr.Pos()),
+				"deleteHandle("+kvpName+") only where len(Block)==0 was established for the handle held in that pair",
+				fnName(f)+" can reach deleteHandle("+kvpName+") without a test that the handle in that pair has no block left (len(handle.Block)==0 / empty())"+detail+
+					": a test on one block's count deletes a handle that still owns addresses in other blocks, and a later release by handle (CNI DEL retry) finds no handle and reports success while the other family's address stays allocated")
+		}
+	}
+	if n == 0 {
+		c.Lost("no call of blockReaderWriter.deleteHandle in libcalico-go/lib/ipam")
+	}
+}
+
+// c38ReadsField: fn (or what it statically calls) reads struct field fv.
+func c38ReadsField(fn *ssa.Function, fv *types.Var) bool {
+	found := false
+	for f := range reachableFuncs([]*ssa.Function{fn}, nil) {
+		allInstrs(f, false, func(_ *ssa.Function, in ssa.Instruction) {
+			switch x := in.(type) {
+			case *ssa.FieldAddr:
+				if structField(x.X.Type(), x.Field) == fv && addrIsRead(x) {
+					found = true
+				}
+			case *ssa.Field:
+				if structField(x.X.Type(), x.Field) == fv {
+					found = true
+				}
+			}
+		})
+	}
+	return found
 }
 
 // ----------------------------------------------------------------------- idem --
